@@ -32,6 +32,31 @@ def histories(seed, n, tier):
     return out
 
 
+def check_iterator_ranges(st, hist, label):
+    """iterator(start, stop) for every pair of tid boundaries against the model"""
+    tids = [t for t, _ in hist]
+    probes = [None] + sorted(set(tids + [p64(u64(t) + 1) for t in tids] +
+                                 [p64(u64(t) - 1) for t in tids if u64(t) > 1]))
+    for start in probes:
+        for stop in probes:
+            exp = [t for t in tids if (start is None or t >= start) and (stop is None or t <= stop)]
+            try:
+                it = st.iterator(start, stop)
+                try:
+                    got = [t.tid for t in it]
+                finally:
+                    c = getattr(it, 'close', None)
+                    if c:
+                        c()
+            except Exception as e:  # noqa
+                got = '%s: %s' % (type(e).__name__, str(e)[:120])
+            if got != exp:
+                return '%s iterator(start=%s, stop=%s) = %r expected %r' % (
+                    label, start.hex() if start else None, stop.hex() if stop else None,
+                    got if isinstance(got, str) else [t.hex() for t in got], [t.hex() for t in exp])
+    return None
+
+
 def check_c04(seed, tier):
     cases = 0
     for hi, hist in enumerate(histories(seed, 6 if tier == 'quick' else 40, tier)):
@@ -44,6 +69,24 @@ def check_c04(seed, tier):
                 r = H.check_queries(w.st, w.hist, 'history#%d' % hi)
                 if r:
                     return fail({'history': repr(hist), 'after': len(w.hist)}, 'model answer', r, cases)
+            # iterator ranges - also while a transaction is voted but not finished (its bytes are in
+            # the file but it is not committed: the answers are those of the committed history)
+            r = check_iterator_ranges(w.st, w.hist, 'history#%d' % hi)
+            if r:
+                return fail({'history': repr(hist)}, 'model answer', r, cases)
+            t = H.Txn()
+            w.st.tpc_begin(t)
+            w.st.store(p64(1), w.st.getTid(p64(1)) if any(p64(1) in d for _, d in w.hist) else z64,
+                       b'in-flight', '', t)
+            w.st.tpc_vote(t)
+            try:
+                cases += 1
+                r = check_iterator_ranges(w.st, w.hist, 'transaction voted but unfinished, history#%d' % hi)
+            finally:
+                w.st.tpc_abort(t)
+            if r:
+                return fail({'history': repr(hist), 'in_flight': 'tpc_begin; store; tpc_vote'},
+                            'model answer', r, cases)
             # aborted transaction in between leaves answers unchanged
             w.commit([(p64(1), b'zzz')], stop_after='vote')
             r = H.check_queries(w.st, w.hist, 'after-abort history#%d' % hi)
@@ -52,6 +95,24 @@ def check_c04(seed, tier):
             # close / reopen (with index, then without index)
             model = list(w.hist)
             w.st.close()
+            # a torn tail (crash during a vote) seen through a READ-ONLY open, which must not cut it off
+            torn_dir = tempfile.mkdtemp(prefix='c04-torn-')
+            try:
+                cases += 1
+                tp = os.path.join(torn_dir, 'Data.fs')
+                shutil.copy(w.path, tp)
+                with open(tp, 'ab') as f:
+                    f.write(b'\x03\xff' + b'torn vote' * 3)
+                st = H.FileStorage(tp, read_only=True)
+                try:
+                    r = check_iterator_ranges(st, model, 'read-only open of a file with a torn tail, history#%d' % hi)
+                finally:
+                    st.close()
+                if r:
+                    return fail({'history': repr(hist), 'tail': '29 stray bytes appended, opened read_only=True'},
+                                'model answer', r, cases)
+            finally:
+                shutil.rmtree(torn_dir, ignore_errors=True)
             for drop_index in (False, True):
                 if drop_index and os.path.exists(w.path + '.index'):
                     os.remove(w.path + '.index')
